@@ -555,6 +555,9 @@ pub fn execute(case: &W2Case, cache_checks: bool, per_insertion: bool) -> crate:
             out.cache.routes_compared += st.0.routes_compared;
             out.cache.entries_compared += st.0.entries_compared;
             out.cache.opaque_entries += st.0.opaque_entries;
+            for (k, n) in &st.0.opaque_by_key {
+                *out.cache.opaque_by_key.entry(k.clone()).or_default() += n;
+            }
             out.cache.order_dependent_entries_skipped += st.0.order_dependent_entries_skipped;
             out.cache.order_dependent_keys.extend(st.0.order_dependent_keys.iter().cloned());
             out.loop_cache_issues.extend(st.1.iter().cloned());
@@ -705,6 +708,9 @@ impl W2Scenario {
                     rec.count("cache.entries_compared", o.cache.entries_compared);
                     rec.count("cache.solution_entries_compared", o.cache.solution_entries_compared);
                     rec.count("cache.opaque_entries_not_compared", o.cache.opaque_entries);
+                    for (k, n) in &o.cache.opaque_by_key {
+                        rec.count(&format!("cache.opaque_by_state_key.{k}"), *n);
+                    }
                     rec.count("cache.handovers_not_at_fixpoint", o.cache.not_fixpoint);
                     rec.count("cache.order_dependent_entries_skipped", o.cache.order_dependent_entries_skipped);
                     rec.count("cache.order_dependent_keys_learned", o.cache.order_dependent_keys.len() as u64);
